@@ -29,12 +29,17 @@ struct Strict {
 enum E1 {
     Unit,
     St { n: u8, s: String },
+    /// the wire name is not the Rust spelling
+    #[zlink(rename = "IOError")]
+    IoErr { n: u8 },
 }
 #[derive(Debug, PartialEq, zlink_core::ReplyError)]
 #[zlink(interface = "a", crate = "zlink_core")]
 enum E2<'a> {
     Unit,
     St { n: u8, s: &'a str },
+    #[zlink(rename = "IOError")]
+    IoErr { n: u8 },
 }
 #[derive(Debug, PartialEq, zlink_core::ReplyError)]
 #[zlink(interface = "a", crate = "zlink_core")]
@@ -125,6 +130,8 @@ fn frames() -> Vec<Frame> {
         (Some("io.systemd.System"), Some(fit_strict.clone()), "undeclared error with parameters that fit a success"),
         (Some("x.Nope"), Some(json!({})), "undeclared error, empty parameters"),
         (Some("a.unit"), None, "error name differing in case"),
+        (Some("a.IOError"), Some(json!({"n": 1})), "declared error whose wire name is a rename"),
+        (Some("a.IoErr"), Some(json!({"n": 1})), "the Rust spelling of a renamed error (not a wire name)"),
         (Some(""), None, "empty error name"),
     ];
     for (name, p) in [
@@ -277,6 +284,10 @@ fn structural(text: &str, declared: &[&str]) -> Structural {
     }
     match name {
         "a.Unit" if empty => Structural::Method("Unit".into()),
+        "a.IOError" => match params.and_then(|p| p.as_object()).filter(|m| m.len() == 1).and_then(|m| m.get("n")).and_then(|n| n.as_u64()).filter(|n| *n <= 255) {
+            Some(n) => Structural::Method(format!("IoErr {{ n: {n} }}")),
+            None => Structural::Unclear,
+        },
         "a.St" => {
             let Some(m) = params.and_then(|p| p.as_object()) else { return Structural::Unclear };
             match (m.len(), m.get("n").and_then(|n| n.as_u64()).filter(|n| *n <= 255), m.get("s").and_then(|s| s.as_str())) {
@@ -409,9 +420,9 @@ fn one(fr: &[Frame], i: u64, sink: &mut Sink<'_>) {
     let rest = i / nf;
     let (p, e, path) = ((rest % NP as u64) as usize, (rest / NP as u64 % NE as u64) as usize, (rest / (NP * NE) as u64) as usize);
     let pnames = ["()", "AllOpt{a:Option<u8>}", "serde_json::Value", "Strict{n:u8,s:String}", "Option<Strict>"];
-    let enames = ["E1{Unit,St{n,s:String}}", "E2<'a>{Unit,St{n,s:&str}}", "E0{}"];
+    let enames = ["E1{Unit,St{n,s:String},IOError{n}}", "E2<'a>{Unit,St{n,s:&str},IOError{n}}", "E0{}"];
     let case = json!({"frame": f.text, "what": f.what, "expected_parameters": pnames[p], "error_type": enames[e], "path": PATHS[path], "index": i});
-    const D: &[&str] = &["a.Unit", "a.St"];
+    const D: &[&str] = &["a.Unit", "a.St", "a.IOError"];
     const NONE: &[&str] = &[];
     macro_rules! with_e {
         ($P:ty, $m0:ident, $m1:ident, $m2:ident) => {
